@@ -66,7 +66,7 @@ func guarded(f func()) (perr string, timedOut bool) {
 
 var elemTypes = []gen.SType{gen.TFloat64, gen.TReal64}
 
-const cTol = 2048.0
+const cTol = 512.0
 
 func fro(a model.Mat) float64 {
 	s := 0.0
@@ -787,7 +787,7 @@ func TestC05_msqrt(t *testing.T) {
 		fc := begin(t, "msqrt", st, ls.A, fmt.Sprintf("inverse=%v kappa=%g", inv, ls.Kappa))
 		// the iterations stop when the squared Frobenius norm of the last step is <= 1e-8; with their
 		// (at least linear) convergence the result is accurate to about the step size
-		fc.tol = 1e-3 * (fro(ls.A) + 1) * ls.Kappa
+		fc.tol = 1e-6 * (fro(ls.A) + 1) * ls.Kappa
 		fc.c.Classf("inverse=%v", inv)
 		fc.c.NT(n >= 2)
 		am := gen.ToDense(st, ls.A)
